@@ -37,7 +37,7 @@ var c10race = newChk("C10", "contention",
 			ad = &v6Adapter{}
 		}
 		conn := netsim.New(4096)
-		if err := ad.start(conn, 80*time.Millisecond, 1); err != nil {
+		if err := ad.start(conn, 80*time.Millisecond, 1, false); err != nil {
 			return obs.Failf("C10/harness", "client starts", "%v", err)
 		}
 		defer ad.close()
@@ -75,7 +75,7 @@ var c10race = newChk("C10", "contention",
 		for len(conn.Writes()) == 0 && time.Now().Before(deadline) {
 			time.Sleep(50 * time.Microsecond)
 		}
-		conn.Deliver(ad.datagram(dgGood, 1, want, 1, 0), ad.dest())
+		conn.Deliver(ad.datagram(dgGood, 1, want, 1, 0, 0, 0), ad.dest())
 		select {
 		case <-entered:
 		case <-time.After(2 * time.Second):
@@ -83,7 +83,7 @@ var c10race = newChk("C10", "contention",
 			return nil // A never saw the datagram (inconclusive iteration)
 		}
 		for i := 0; i < c.Extra; i++ {
-			conn.Deliver(ad.datagram(dgGood, 1, want, 100+i, 0), ad.dest())
+			conn.Deliver(ad.datagram(dgGood, 1, want, 100+i, 0, 0, 0), ad.dest())
 		}
 		// let the receive loop take them (it blocks on the full buffer holding the lock when Extra > 5)
 		for w := 0; conn.Pending() > 0 && w < 400; w++ {
@@ -105,7 +105,7 @@ var c10race = newChk("C10", "contention",
 			for k := 0; k < 3; k++ {
 				time.Sleep(2 * time.Millisecond)
 				for j := 0; j < c.Callers; j++ {
-					conn.Deliver(ad.datagram(dgGood, bx, want, 500+10*k+j, 0), ad.dest())
+					conn.Deliver(ad.datagram(dgGood, bx, want, 500+10*k+j, 0, 0, 0), ad.dest())
 				}
 			}
 		}()
